@@ -113,6 +113,8 @@ class SimSocket:
                 raise _socket.timeout("timed out (injected at connect)")
             raise ConnectionRefusedError(errno.ECONNREFUSED, "injected at connect")
         server = net.resolve(addr)
+        if server is not None and net.is_down(addr):
+            server = None
         if server is None:
             raise ConnectionRefusedError(errno.ECONNREFUSED, "no server at %r" % (addr,))
         self.addr = addr
@@ -132,6 +134,9 @@ class SimSocket:
         net = self.net
         net._log(self, "sendall", data)
         self._usable("sendall")
+        if net.down and net.is_down(self.addr):
+            self.failed_call = True
+            raise ConnectionResetError(errno.ECONNRESET, "server went away")
         if self.timeout != net.expect_io_timeout and net.expect_io_timeout != "any":
             net.violations.append("sendall under timeout %r, expected the I/O timeout %r" % (self.timeout, net.expect_io_timeout))
         if net.env_plan:
@@ -306,6 +311,7 @@ class NetSim:
         self.expect_io_timeout = "any"
         self.check_failed_reuse = False
         self.tls_expected = False
+        self.down = set()                 # addresses whose server currently refuses/reset connections
         self.request_hook = None
         self.reply_hook = None            # C03/C04: splice symbolic bytes into the concrete reply
         self.env_plan = None              # C06: (event name, occurrence index, exception) environment faults
@@ -336,6 +342,11 @@ class NetSim:
                 port = int(port)      # getaddrinfo accepts a decimal string as service
             return self.servers.get((addr[0], port))
         return None
+
+    def is_down(self, addr):
+        if isinstance(addr, tuple) and len(addr) >= 2 and isinstance(addr[1], str) and addr[1].isdigit():
+            addr = (addr[0], int(addr[1]))
+        return addr in self.down
 
     def begin_call(self, call_id, noreply=False):
         self.current_call = call_id
